@@ -989,6 +989,12 @@ def fault_cases(r):
          "victim": f"copy a c0 {hx(key)} out/dest", "key": key, "data": d, "algo": "sha256", "kind": "copy", "others": others},
         {"setup": base + [w_oneshot("s", "sha256", key, d), f"hard_link_hash_unchecked s c0 {sri_tok('sha256', d)} out/dest"],
          "victim": f"copy_hash_unchecked s c0 {sri_tok('sha256', d)} out/dest", "key": key, "data": d, "algo": "sha256", "kind": "copy", "others": others},
+        # ... and onto a SYMBOLIC link that leads to the content file (no second hard link: the F29 detach does not apply,
+        # the same-file test is all that stands between the copy's O_TRUNC and the stored bytes)
+        {"setup": base + [w_oneshot("s", "sha256", key, d), f"symlink out/dest rel:../c0/{L.content_rel(L.sri_of('sha256', d))}"],
+         "victim": f"copy s c0 {hx(key)} out/dest", "key": key, "data": d, "algo": "sha256", "kind": "copy", "others": others},
+        {"setup": base + [w_oneshot("s", "sha256", key, d), f"symlink out/dest rel:../c0/{L.content_rel(L.sri_of('sha256', d))}"],
+         "victim": f"copy_hash_unchecked a c0 {sri_tok('sha256', d)} out/dest", "key": key, "data": d, "algo": "sha256", "kind": "copy", "others": others},
         {"setup": base + [w_oneshot("s", "sha256", key, d)], "victim": f"remove s c0 {hx(key)}", "key": None, "data": None, "algo": "sha256", "kind": "remove", "others": others},
         {"setup": base + [w_oneshot("s", "sha256", key, d)], "victim": "list c0", "key": key, "data": d, "algo": "sha256", "kind": "list", "others": others},
         # full removal: an ok answer means entry AND content are gone; after an error answer the same call succeeds
